@@ -28,37 +28,48 @@ def run(ctx, rep):
     def is_payload(e):
         return contains(e, lambda x: isinstance(x, tuple) and len(x) == 3 and x[0] == "as" and x[2] == "RemoveChunks")
 
-    def unlink_source(a):
+    def unlink_source(a_raw):
         """'payload' when the unlinked path is an element of the received RemoveChunks vector iterated forward,
-        'queue' when it is drained (front to back) from a worker-owned vector that is only extended at the back with
-        received payloads; None otherwise"""
-        a = strip_ids(a)
-        if not (isinstance(a, tuple) and a and a[0] == "okval" and call_is(a[1], NEXT_RX)):
+        'queue' when it is taken (front to back) from a worker-owned vector that is only extended at the back with
+        received payloads and emptied as a whole (drain(..) / mem::take / mem::replace); None otherwise.  The element may be the
+        loop variable of a `for`, or the argument of a closure / function run per element by a forward adaptor."""
+        ei = element_iterator(g, P, a_raw)
+        if ei is None:
             return None
-        it = call_arg(a[1], 0)
+        it = ei[0]
+        guard = 0
+        while guard < 6 and (call_is(it, r"IntoIterator>?::into_iter$|iter::Iterator>?::(by_ref|fuse|peekable)$") and call_arg(it, 0) is not None):
+            it = call_arg(it, 0)
+            guard += 1
         if is_field(it, "chunk_paths") and is_payload(it):
             return "payload"
+        q = None
         if call_is(it, r"Vec::<T, A>::drain$") and isinstance(call_arg(it, 1), tuple) and "RangeFull" in str(call_arg(it, 1)[1:2]):
             q = call_arg(it, 0)
-            if not (isinstance(q, tuple) and q[0] == "field"):
-                return None
-            for m in P.calls(None):
-                ea = event_args(g, m)
-                if not ea or strip_ids(ea[0]) != q or not mut_first_arg(g, m):
-                    continue
-                nm = cpath(g.term(m)).split("::")[-1]
-                if nm == "drain":
-                    continue
-                if nm in ("extend", "append", "push") and len(ea) > 1 and is_payload(ea[1]):
-                    continue
-                return None
-            return "queue"
-        return None
+        elif call_is(it, r"mem::(take|replace)$"):
+            q = call_arg(it, 0)
+        if q is None or not (isinstance(q, tuple) and q[0] == "field"):
+            return None
+        for m in P.calls(None):
+            ea = event_args(g, m)
+            if not ea or strip_ids(ea[0]) != q or not mut_first_arg(g, m):
+                continue
+            nm = cpath(g.term(m)).split("::")[-1]
+            if nm in ("drain", "take", "replace"):
+                continue
+            if nm in ("extend", "append", "push") and len(ea) > 1 and is_payload(ea[1]):
+                continue
+            return None
+        return "queue"
 
     # ---------------- R08.1 -------------------------------------------------------------
     sites = ctx.all_calls(UNLINK_RX)
     rep.floor("R08.1", "unlink-like calls in the crate", len(sites), 1)
     wnodes = {(g.inst(n).key, n[1]): n for n in P.calls(UNLINK_RX)}
+    for n in P.calls(UNLINK_RX):
+        i_ = g.inst(n)
+        if i_.key.startswith("<shim>::") and i_.parent is not None:
+            wnodes[(i_.parent.key, i_.call_bb)] = n      # the function was handed to an adaptor at that call site
     for b, bi, t in sites:
         where = "%s:%d" % (c04.rel_(t["file"]), t["line"])
         n = wnodes.get((b["key"], bi))
@@ -146,7 +157,7 @@ def run(ctx, rep):
     # ---------------- R08.5 -------------------------------------------------------------
     for n in rm_nodes:
         a = strip_ids(event_args(g, n)[0])
-        if unlink_source(a):
+        if unlink_source(event_args(g, n)[0]):
             rep.ok("R08.5", "unlink loop", "iterates the received chunk_paths vector forward: %s" % expr_s(a)[:80], where=g.where(n))
         else:
             rep.violation("R08.5", "worker|unlink-order:%s" % expr_s(a)[:60], "unlink loop",
@@ -269,16 +280,33 @@ def r08_4(ctx, rep):
     key = ctx.body_key(WRITER_RX % "purge")
     g = ctx.graph(key)
     P = ctx.product(key)
-    pops = [n for n in P.calls(r"BTreeMap::<K, V, A>::\w+$") if CLOSED(event_args(g, n)[0]) and mut_first_arg(g, n)]
+    pops = [n for n in P.calls(r"BTreeMap::<K, V, A>::\w+$") if CLOSED(event_args(g, n)[0]) and mut_first_arg(g, n)
+            and not cmatch(g.term(n), r"::(first_entry|last_entry|entry|get_mut|iter_mut|values_mut|range_mut)$")]
     pop_first = [n for n in pops if cmatch(g.term(n), r"::pop_first$")]
+    # the Entry API: `closed.first_entry()` is a look at the oldest chunk, `entry.remove_entry()` / `entry.remove()` on it is pop_first
+    first_entries = [n for n in P.calls(r"BTreeMap::<K, V, A>::first_entry$") if CLOSED(event_args(g, n)[0])]
+
+    def from_first_entry(e):
+        return contains(strip_ids(e), lambda x: call_is(x, r"BTreeMap::<K, V, A>::first_entry$") and CLOSED(call_arg(x, 0)))
+    entry_removes = [n for n in P.calls(r"btree_map::OccupiedEntry::<'a, K, V, A>::(remove_entry|remove)$|OccupiedEntry<.*>::(remove_entry|remove)$")
+                     if event_args(g, n) and from_first_entry(event_args(g, n)[0])]
+    pop_first = pop_first + entry_removes
+    pops = pops + entry_removes
+    other_entry_mut = [n for n in P.calls(r"OccupiedEntry.*::(insert|get_mut|into_mut)$") if event_args(g, n) and
+                       contains(strip_ids(event_args(g, n)[0]), lambda x: call_is(x, r"BTreeMap::<K, V, A>::\w*entry$") and CLOSED(call_arg(x, 0)))]
+    pops = pops + other_entry_mut
     rep.floor("R08.4", "pop_first on RaftLogWAL.closed in Op(purge)", len(pop_first), 1)
     for n in pops:
         nm = cpath(g.term(n)).split("::")[-1]
         if nm == "pop_first":
             continue
-        if nm == "insert":
+        if nm in ("remove_entry", "remove") and n in entry_removes:
+            continue
+        if nm == "insert" and cmatch(g.term(n), r"BTreeMap::<K, V, A>::insert$"):
             k = event_args(g, n)[1]
-            if contains(k, lambda x: call_is(x, r"mem::replace$")):
+            # the id of the chunk being closed: read from the open chunk (before or after it was swapped out)
+            if contains(k, lambda x: call_is(x, r"mem::replace$")) or \
+                    contains(strip_ids(k), lambda x: is_index(x, lambda b: is_field(b, "global_offsets") and has_field(b, "open"), 0)):
                 rep.ok("R08.4", "closed.insert at rotation", "key derives from the chunk being closed", where=g.where(n), nontrivial=False)
                 continue
         rep.violation("R08.4", "purge|closed.%s" % nm, "closed.%s" % nm,
@@ -294,7 +322,7 @@ def r08_4(ctx, rep):
 
         def is_last(e):
             return is_field(e, "last") and is_field(e[1], "state") and \
-                contains(e, lambda x: call_is(x, r"BTreeMap::<K, V, A>::first_key_value$") and CLOSED(call_arg(x, 0)))
+                contains(e, lambda x: call_is(x, r"BTreeMap::<K, V, A>::(first_key_value|first_entry)$") and CLOSED(call_arg(x, 0)))
 
         def is_upto(e):
             return isinstance(e, tuple) and e[0] == "agg" and e[2] == "Some" and e[3] and e[3][0] == ("arg", 2)
@@ -308,7 +336,7 @@ def r08_4(ctx, rep):
     pset = set(pop_first)
     popset_any = set(pops)
 
-    peeks = set(n for n in P.calls(r"BTreeMap::<K, V, A>::first_key_value$") if CLOSED(event_args(g, n)[0]))
+    peeks = set(n for n in P.calls(r"BTreeMap::<K, V, A>::(first_key_value|first_entry)$") if CLOSED(event_args(g, n)[0]))
     opp = {"true": "false", "false": "true"}
 
     def stop_fact(cn, v):
@@ -328,6 +356,8 @@ def r08_4(ctx, rep):
             cn = origin_call(o)
             if cn in peeks and v == "None":
                 stopped = True
+            if cn in pset and v == "None":
+                stopped = True           # pop_first() answered None: no closed chunk is left
             if cn in cmps and stop_fact(cn, v):
                 stopped = True
         return (applied, stopped)
@@ -356,7 +386,7 @@ def r08_4(ctx, rep):
                 pending = True
         if n in pushes:
             v = event_args(g, n)[1]
-            if contains(v, lambda x: call_is(x, r"BTreeMap::<K, V, A>::pop_first$")):
+            if contains_src(g, v, lambda x: call_is(x, r"BTreeMap::<K, V, A>::pop_first$|OccupiedEntry.*::(remove_entry|remove)$")):
                 pending = False
         for f in outs:
             if f(pi, qi, learn) == "ok":
@@ -365,6 +395,8 @@ def r08_4(ctx, rep):
             cn = origin_call(o)
             if cn in cmps and guard_fact(cn, v):
                 guarded = True
+            if cn in pset and v == "None":
+                pending = False          # nothing was popped
         return (applied, guarded, pending)
     seen = run_monitor(P, (False, False, False), step)
     for n in pop_first:
